@@ -27,6 +27,9 @@ pub fn features(f: &F, v: &V) -> Vec<String> {
     {
         fs.push("toplevel-independent-variable-named-like-budget-content".to_string());
     }
+    if f.name == "han" && han_copula_ambiguity(f, &v.term) {
+        fs.push("han-name-ending-in-first-character-of-a-two-character-copula".to_string());
+    }
     if f.name == "han" && v.kind() != Kind::Task {
         if let Some(w) = leading_word(&v.term) {
             if han_budget_lookalike(w) {
@@ -35,6 +38,28 @@ pub fn features(f: &F, v: &V) -> Vec<String> {
         }
     }
     fs
+}
+
+/// Han: some atom name ends in 具 / 将 / 现 / 曾, the first character of the copulas
+/// 具有, 将得, 将同, 现得, 现同, 曾得, 曾同 (whose second character is itself a copula)
+pub fn han_name_ends_with_copula_head(r: &R) -> bool {
+    r.any(&|n| n.tag.is_atom() && matches!(n.name.chars().last(), Some('具') | Some('将') | Some('现') | Some('曾')))
+}
+
+/// Han, precise form for values printed by the library: some statement whose subject is an atom
+/// with a name ending in X, printed directly before a copula starting with Y, where XY is itself a
+/// copula (将+得, 将+同, 现+得, ... , 具+有)
+pub fn han_copula_ambiguity(f: &F, r: &R) -> bool {
+    let copulas = f.copulas();
+    r.any(&|n| {
+        if !n.tag.is_statement() || !n.kids[0].tag.is_atom() {
+            return false;
+        }
+        let Some(x) = n.kids[0].name.chars().last() else { return false };
+        let Some(y) = crate::emit::copula(f, n.tag).chars().next() else { return false };
+        let xy: String = [x, y].iter().collect();
+        copulas.iter().any(|c| *c == xy)
+    })
 }
 
 /// name of the atom whose text comes first in the formatted term, if that atom is a bare word
